@@ -383,12 +383,12 @@ pub fn glue17(out: &mut Out, thorough: bool) {
     for _ in 0..runs {
         let mut fen_line: Option<String> = None;
         out.case("cli-book-phase", true, "expect left-the-book #cli-book".into(), || {
-            let (code, _so, lines) = cli_run(None, 3000, true);
+            let (code, _so, lines) = cli_run(None, 30000, true);
             fen_line = lines.iter().find(|l| is_fen_line(l)).cloned();
             match (code, &fen_line) {
                 (_, Some(_)) => "left-the-book".into(),
                 (Some(c), None) => format!("trap exit={c} {}", lines.iter().find(|l| l.contains("panicked")).cloned().unwrap_or_default().chars().take(80).collect::<String>()),
-                (None, None) => "trap hang: no position printed within 3 s".into(),
+                (None, None) => "trap hang: no position printed within 30 s".into(),
             }
         });
         if let Some(p) = fen_line.as_deref().and_then(pos64_of_fen) {
@@ -407,7 +407,7 @@ pub fn glue17(out: &mut Out, thorough: bool) {
         "rnbqkbnr/pppp1ppp/8/4p3/4P3/8/PPPP1PPP/RNBQKBNR w KQkq e6 0 2",
     ] {
         out.case("cli-no-book-from-a-position", true, format!("glue cliarg {}", hexbytes(fen.as_bytes())), || {
-            let (code, _so, lines) = cli_run(Some(fen), 3000, true);
+            let (code, _so, lines) = cli_run(Some(fen), 30000, true);
             // the Debug diagram of the book loop starts with "turn:"; the game loop prints the FEN line first
             let first = lines.iter().find(|l| !l.trim().is_empty()).cloned().unwrap_or_default();
             match code {
